@@ -543,7 +543,7 @@ type c12Sched struct {
 	DelayUs    int
 	Spin       bool // B is repeated back to back until it is no longer answered 400 (or A is done)
 	Pending    int  // messages the backend sends before the pair starts
-	K          int // messages the backend sends immediately before closing (X)
+	K          int  // messages the backend sends immediately before closing (X)
 }
 
 // C12Scheds lists every forced schedule; the orchestrator mirrors the names.
